@@ -106,6 +106,7 @@ type Ctx struct {
 	NShards  int
 	Dir      string // run directory of this check (.run/<ID>)
 	Replay   bool   // replaying a single case: no journal, verbose
+	Strict   bool   // replaying a committed witness: known-finding exclusions are not applied
 
 	mu       sync.Mutex
 	res      Result
